@@ -164,6 +164,9 @@ func (o *Oracle) Fresh(c Call) string {
 // sees these in the opposite order: if the library keeps any state from one call to the next even in isolation (a
 // process-wide memo, say), the two references disagree on some descriptor.
 func (o *Oracle) Young(calls []Call) []oracleReply {
+	if len(calls) == 0 {
+		return nil
+	}
 	cmd := exec.Command(o.bin, "oracle")
 	var in strings.Builder
 	for i := len(calls) - 1; i >= 0; i-- {
